@@ -67,10 +67,13 @@ def load_known():
     return json.load(open(p)).get('findings', [])
 
 
+PARTIAL = False     # --only (debugging): a partial run never overwrites the committed evidence
+
+
 def out_dir(kind):
     """evidence/ and replays/ under /verif for runs against /repo; under scratch for other trees (seed testing)"""
     repo = os.environ.get('VERIF_REPO', '/repo')
-    if os.path.realpath(repo) == '/repo':
+    if os.path.realpath(repo) == '/repo' and not PARTIAL:
         d = os.path.join(VERIF, kind)
     else:
         d = os.path.join(os.environ.get('VERIF_OUT', os.path.join(os.environ.get('VERIF_SCRATCH', '/var/tmp/verif-scratch'), 'out')), kind)
@@ -133,6 +136,8 @@ def main():
                                                     for f, p in progs.items()))
     spaces = H.spaces(tier, seed)
     if a.only:
+        global PARTIAL
+        PARTIAL = True
         spaces = [s for s in spaces if a.only in explore._cfgstr(s)]
     random.Random(seed).shuffle(spaces)
     limit = a.deadline or (H.deadline_quick if tier == 'quick' else H.deadline_thorough)
@@ -178,6 +183,14 @@ def main():
     known = [k for k in load_known() if k.get('property') == prop]
     groups = {}
     unreplayable = [v for v in violations if v['case'] is None]
+    if unreplayable and hasattr(H, 'kernel_witness'):
+        # abstract-state counterexamples: look for a concrete witness beyond the bounded spaces (see fragbase.py)
+        try:
+            for case in H.kernel_witness(explore.ctx_get('full')['nat']):
+                violations.append({'clause': case['clause'], 'msg': case['msg'], 'case': case, 'decisions': ''})
+                log('kernel counterexample: concrete witness found: %s' % json.dumps(case['inputs'])[:200])
+        except Exception as e:
+            log('kernel witness search failed: %s' % (e,))
     for v in violations:
         if v['case'] is None:
             continue
